@@ -1,5 +1,6 @@
 from __future__ import annotations
 
+import itertools
 import textwrap
 import tokenize
 
@@ -20,6 +21,7 @@ class Tokenizer:
 
     def __init__(self, tokengen: Iterator[TokenInfo], *, path: str = "", verbose: bool = False):
         self._tokengen = tokengen
+        self._raw_from: set[int] = set()  # token indices at which a raw macro capture began
         self._tokens = []
         self._index = Mark(0)
         self._verbose = verbose
@@ -46,6 +48,18 @@ class Tokenizer:
         if self._verbose:
             self.report(cached, False)
         return tok
+
+    def reread_from_here(self) -> bool:
+        """Hand the tokens cached beyond the current position back to the token source, to be read again (as raw macro text).
+
+        A rule tried earlier may have read them as ordinary tokens ('match !(a, b)' is first tried as a match statement
+        whose subject is a subprocess). False when they are the result of a raw capture already."""
+        if self._index in self._raw_from or self._stack:
+            return False
+        tail = self._tokens[self._index :]
+        del self._tokens[self._index :]
+        self._tokengen = itertools.chain(tail, self._tokengen)
+        return True
 
     def at_frontier(self) -> bool:
         """No token beyond the current position has been read from the token source yet."""
